@@ -29,8 +29,8 @@ Values.  An options message is a `PM` (field number ↦ value, insertion order);
 presence that is set to its zero value is not stored (dynamicpb: `Has` is false, `Range` skips it).
 Map entries are kept in key order (only the printed form observes a Go map's order).
 Floats are carried as IEEE bit patterns; NaNs are canonicalised where they are produced.
-Float rounding (`float32(x)`, `float64(int)`) is delegated to the Lean runtime (`Float`,
-`Float32`) and is opaque to the proofs.
+Float rounding (`float32(x)`, `float64(int)`) is computed exactly by the pure functions of
+PCV.Model.OptionsFloat (round to nearest even on bit patterns).
 
 Not modelled: the `…FromProto` twins used when no AST is present, message-set wire format,
 `WithOverrideDescriptorProto`, source-info bookkeeping, warnings, feature-support checks of enum
@@ -39,6 +39,7 @@ sanity checks of a hand-written `google.protobuf.Any`, the text of float default
 inf/nan (compared by value), failures of the final `cloneInto` (invalid UTF-8).
 -/
 import PCV.Model.Escape
+import PCV.Model.OptionsFloat
 import PCV.Model.Utf8
 namespace PCV.Options
 
@@ -222,7 +223,7 @@ def Err.toString : Err → String
 /-- keep the first error -/
 def firstErr (a b : Option Err) : Option Err := match a with | some e => some e | none => b
 
-/-! ## Float helpers (runtime only; opaque to the proofs) -/
+/-! ## Float helpers -/
 
 def isNaN64 (b : Nat) : Bool := (b / 4503599627370496) % 2048 == 2047 && b % 4503599627370496 != 0
 def isNaN32 (b : Nat) : Bool := (b / 8388608) % 256 == 255 && b % 8388608 != 0
@@ -234,13 +235,14 @@ def canon64 (b : Nat) : Nat := if isNaN64 b then nan64 else b
 def canon32 (b : Nat) : Nat := if isNaN32 b then nan32 else b
 
 /-- `float32(f)` for a float64 given by its bits -/
-def f32OfF64 (b : Nat) : Nat := canon32 (Float.ofBits (UInt64.ofNat b)).toFloat32.toBits.toNat
+def f32OfF64 (b : Nat) : Nat := canon32 (f64ToF32 b)
 /-- `float64(u)` for a uint64 -/
-def f64OfNat (n : Nat) : Nat := (UInt64.ofNat n).toFloat.toBits.toNat
+def f64OfNat (n : Nat) : Nat := natToF64 n
 /-- `float64(i)` for an int64 -/
-def f64OfInt (i : Int) : Nat := (Int64.ofInt i).toFloat.toBits.toNat
-def f32OfNat (n : Nat) : Nat := (UInt64.ofNat n).toFloat32.toBits.toNat
-def f32OfInt (i : Int) : Nat := (Int64.ofInt i).toFloat32.toBits.toNat
+def f64OfInt (i : Int) : Nat := intToF64 i
+/-- `float32(u)` / `float32(i)`: ONE rounding step from the integer (not via float64) -/
+def f32OfNat (n : Nat) : Nat := natToF32 n
+def f32OfInt (i : Int) : Nat := intToF32 i
 
 /-! ## scalarFieldValue, enumFieldValue -/
 
